@@ -199,6 +199,8 @@ class Filer(hioing.Mixin):
         self.close(clear=clear)
 
         if temp is not None:
+            if bool(temp) != bool(self.temp):  # .path was made under other temp
+                reuse = False  # so remake it, clearing depends on .temp
             self.temp = temp
         if headDirPath is not None:
             self.headDirPath = headDirPath
